@@ -286,6 +286,20 @@ theorem inv_rWaitConn (c : Cfg) (s t : State) (hi : Inv s) (h : step c s (.rWait
     | skip
   all_goals inv_fin
 
+theorem inv_rAuthStep (c : Cfg) (s t : State) (hi : Inv s) (h : step c s (.rAuthStep) = some t) : Inv t := by
+  obtain ⟨h1,h2,h3,h4,h5,h6,h7,h8,h9,h10,h11,h12,h13,h14,h15,h16,h17,h18,h19,h20,h21,h22,h23,h24,h25,h26,h27,h28,h29⟩ := hi
+  simp only [step] at h
+  (repeat' (split at h))
+  all_goals (first | (cases h; done) | skip)
+  all_goals (try (injection h with h; subst h))
+  all_goals first
+    | (have h' := onceBegin_some h; clear h; rcases h' with ⟨_, _, _, _, rfl⟩ | ⟨_, _, rfl⟩ | ⟨_, rfl⟩)
+    | (have h' := onceSend_some h; clear h; rcases h' with ⟨_, rfl⟩ | ⟨_, _, rfl⟩)
+    | (have h' := outPut_some h; clear h; obtain ⟨_, rfl⟩ := h')
+    | (have h' := outSkip_some h; clear h; obtain ⟨_, rfl⟩ := h')
+    | skip
+  all_goals inv_fin
+
 theorem inv_rErr (c : Cfg) (s t : State) (hi : Inv s) (h : step c s (.rErr) = some t) : Inv t := by
   obtain ⟨h1,h2,h3,h4,h5,h6,h7,h8,h9,h10,h11,h12,h13,h14,h15,h16,h17,h18,h19,h20,h21,h22,h23,h24,h25,h26,h27,h28,h29⟩ := hi
   simp only [step] at h
@@ -987,6 +1001,7 @@ theorem inv_step (c : Cfg) (s t : State) (a : Act) (hi : Inv s) (h : step c s a 
   | rSend => exact inv_rSend c s t hi h
   | rSendAbort => exact inv_rSendAbort c s t hi h
   | rWaitConn => exact inv_rWaitConn c s t hi h
+  | rAuthStep => exact inv_rAuthStep c s t hi h
   | rErr => exact inv_rErr c s t hi h
   | rSendDisc => exact inv_rSendDisc c s t hi h
   | rCloseIn => exact inv_rCloseIn c s t hi h
